@@ -336,6 +336,7 @@ func init() {
 		"math/bits.Len8":  bitsLen(8),
 		"unique.Make": uniqueMake,
 		"errors.Is":   errorsIs,
+		"errors.As":   errorsAs,
 		"errors.Join": func(e *Engine, s *State, f *Frame, fn *ssa.Function, args []Value, retIdx int, advance bool) (Value, bool) {
 			// opaque non-nil error unless every operand is nil
 			va := args[0].(*SliceV)
@@ -385,6 +386,7 @@ func init() {
 			return nil, true
 		},
 		rtPkg + "IsReleasedPtr": func(e *Engine, s *State, f *Frame, fn *ssa.Function, args []Value, retIdx int, advance bool) (Value, bool) {
+			e.usedModels = true
 			iv := args[0].(*IfaceV)
 			if iv.T == nil {
 				return e.c.False, true
@@ -434,6 +436,7 @@ func init() {
 		"runtime.GC":                 noopIntrinsic,
 		"runtime/debug.FreeOSMemory": noopIntrinsic,
 		rtPkg + "Ghost": func(e *Engine, s *State, f *Frame, fn *ssa.Function, args []Value, retIdx int, advance bool) (Value, bool) {
+			e.usedModels = true // ghost queries have no native counterpart
 			return e.c.BV(uint64(s.ghost[e.tagOf(args[0])]), 64), true
 		},
 		"runtime.Gosched":   noopIntrinsic,
@@ -871,4 +874,40 @@ func freshObjIntrinsic(e *Engine, s *State, f *Frame, fn *ssa.Function, args []V
 	pt := fn.Signature.Results().At(0).Type().Underlying().(*types.Pointer)
 	o := e.newObj(s, e.zero(pt.Elem()), pt.Elem(), "model "+fn.String())
 	return &Pointer{Obj: o.ID}, true
+}
+
+// errorsAs: first error in the chain (direct, then through *fmt.wrapError) whose dynamic type is assignable
+// to the target's element type.
+func errorsAs(e *Engine, s *State, f *Frame, fn *ssa.Function, args []Value, retIdx int, advance bool) (Value, bool) {
+	cur := args[0].(*IfaceV)
+	tgt := args[1].(*IfaceV)
+	if tgt.T == nil {
+		e.fail(s, "panic", "errors.As: target cannot be nil")
+	}
+	pt, ok := tgt.T.(*types.Pointer)
+	if !ok {
+		e.fail(s, "panic", "errors.As: target must be a non-nil pointer")
+	}
+	et := pt.Elem()
+	for depth := 0; depth < 16 && cur.T != nil; depth++ {
+		if it, isIface := et.Underlying().(*types.Interface); isIface {
+			if types.Implements(cur.T, it) {
+				e.store(s, tgt.V.(*Pointer), cur)
+				return e.c.True, true
+			}
+		} else if types.Identical(cur.T, et) {
+			e.store(s, tgt.V.(*Pointer), cur.V)
+			return e.c.True, true
+		}
+		p, isPtr := cur.T.(*types.Pointer)
+		if !isPtr {
+			break
+		}
+		nt, isNamed := p.Elem().(*types.Named)
+		if !isNamed || nt.Obj().Pkg() == nil || nt.Obj().Pkg().Path() != "fmt" || nt.Obj().Name() != "wrapError" {
+			break
+		}
+		cur = e.load(s, cur.V.(*Pointer)).(*StructV).Fields[1].(*IfaceV)
+	}
+	return e.c.False, true
 }
